@@ -123,8 +123,13 @@ func fileObs(f *os.File, read bool, write string) map[string]any {
 func main() {
 	hx.Init()
 	scratch := os.Getenv("VERIF_SCRATCH")
+	hangs := 0
 	hx.Cases(func(c map[string]any) map[string]any {
 		obs := []any{}
+		if hangs >= 3 {
+			// three calls never returned already: the remaining histories would only wait for the watchdog again
+			return map[string]any{"obs": obs, "hang": true, "skipped_after_hangs": true}
+		}
 		for _, raw := range c["ops"].([]any) {
 			op := raw.(map[string]any)
 			kind := op["op"].(string)
@@ -205,6 +210,10 @@ func main() {
 					}
 					null.Close()
 					o["rounds_done"], o["fail"], o["statuses"], o["base_us"] = done, fail, counts, base.Microseconds()
+				case "killinit":
+					// the container dies under the host's feet: the transport is lost from now on
+					syscall.Kill(container.InitPidVerif(env), syscall.SIGKILL)
+					time.Sleep(30 * time.Millisecond)
 				case "ping":
 					o["err"] = errs(env.Ping())
 				case "reset":
@@ -357,6 +366,7 @@ func main() {
 				// the call hangs: report it and abandon this environment (and the rest of the history)
 				obs = append(obs, map[string]any{"op": kind, "hang": true, "ms": time.Since(t0).Milliseconds()})
 				env = nil
+				hangs++
 				return map[string]any{"obs": obs, "hang": true}
 			}
 			o["ms"] = time.Since(t0).Milliseconds()
